@@ -87,6 +87,7 @@ pub fn oracle(case: &Case, res: &SpResult) -> (Option<(String, String)>, Vec<&'s
     // congestion window may shrink from then on, the slow-start allowance below no longer holds)
     let mut loss_evidence_t: Option<u64> = None;
     let mut first_tx_bytes: u64 = 0;
+    let (mut last_data_tx_t, mut last_data_tx_t_earlier): (Option<u64>, Option<u64>) = (None, None);
     let mut any_retx = false;
     let mut small_while_outstanding = false;
     let mut drained_events: Vec<(u64, usize, u64)> = vec![]; // (t, log idx, ord) at which everything outstanding got acked
@@ -109,6 +110,8 @@ pub fn oracle(case: &Case, res: &SpResult) -> (Option<(String, String)>, Vec<&'s
                 if p.conn_id != res.id_to_peer || !handshake_done || p.ptype != refparse::ST_DATA { continue; }
                 let ambiguous = last_rx_t == Some(r.t_us);
                 let (k, kind) = obs.on_tx_data(r.t_us, p);
+                let prev_data_tx_t = last_data_tx_t.filter(|t| *t < r.t_us).or(last_data_tx_t_earlier);
+                if last_data_tx_t != Some(r.t_us) { last_data_tx_t_earlier = last_data_tx_t; last_data_tx_t = Some(r.t_us); }
                 if kind == TxKind::Retransmission { any_retx = true; continue; }
                 first_tx_bytes += p.payload.len() as u64;
                 tx_first_times.push((r.t_us, r.ord));
@@ -130,6 +133,23 @@ pub fn oracle(case: &Case, res: &SpResult) -> (Option<(String, String)>, Vec<&'s
                         viol!("partial-segment-while-unacked", "log #{}: Nagle is on, seq {} carries {} bytes (< segment size {}) although earlier data (from seq {}) is still unacknowledged and the peer window ({}) does not limit it; {} bytes had been written", r.idx, p.seq, len, could, first.wrapping_add((obs.st.cum + 1) as u16), obs.st.wnd, written);
                     }
                     if earlier_unacked && window_limits { labels.insert("window_limited_partial"); }
+                    // "unless the peer's window is what limits it" — a window below one segment is not by itself such a
+                    // limit: it limits a segment only if the segment fills the room that is left. Decidable from the wire
+                    // when the cut is provably fresh: the segment leaves at the instant of a write, carries exactly the
+                    // bytes not transmitted before (so nothing had been cut earlier under another window), no peer packet
+                    // arrives at that instant, and the previous transmission is too recent for a timer to be involved.
+                    if c.sock.nagle && earlier_unacked && !any_retx && !ambiguous {
+                        let untransmitted_before = written.saturating_sub(first_tx_bytes - len as u64);
+                        let fresh = untransmitted_before == len as u64;
+                        let at_write = writes.iter().any(|(_, tw, _)| *tw == r.t_us);
+                        let recent = prev_data_tx_t.is_some_and(|pt| r.t_us - pt < 150_000);
+                        let s = &obs.st;
+                        let room = (s.wnd as u64).saturating_sub(obs.outstanding(s, k) - len as u64);
+                        if fresh && at_write && recent { labels.insert("fresh_partial_cut_checked"); }
+                        if fresh && at_write && recent && room > len as u64 {
+                            viol!("partial-segment-window-has-room", "log #{}: Nagle is on, seq {} carries {} bytes — all that was buffered — while earlier data (from seq {}) is unacknowledged; the peer's window ({}) leaves room for {} bytes, so it is not what limits this segment, which should have waited for the acknowledgement", r.idx, p.seq, len, first.wrapping_add((obs.st.cum + 1) as u16), s.wnd, room);
+                        }
+                    }
                     if !c.sock.nagle && earlier_unacked { labels.insert("nagle_off_small_sent"); }
                 } else if written > 0 && writes.iter().filter(|(o, _, _)| *o < r.ord).count() >= 2 && len == could {
                     labels.insert("full_segment");
